@@ -109,6 +109,51 @@ def antipode(p):
     return (lon, -p[1])
 
 
+TINY_LATS = [0.0, 45.0, -33.3, 60.0, 12.345678, 85.0, 89.9, 89.999999, -89.99, 90.0, -90.0, 1e-7]
+TINY_LONS = [0.0, 12.5, -77.0365, 179.9999999, 180.0, -180.0, -179.99999999, 90.0, 1e-9]
+
+
+def wrap_point(lon, lat):
+    lat = max(-90.0, min(90.0, lat))
+    if lon > 180.0:
+        lon -= 360.0
+    elif lon < -180.0:
+        lon += 360.0
+    return (max(-180.0, min(180.0, lon)), lat)
+
+
+def gen_tiny_triple(rng):
+    """points a hand's breadth to a street apart (1e-3 .. 1e-9 degrees, and neighbours one ulp apart), at several base
+    latitudes incl. next to the poles and across the antimeridian; the third point mostly (nearly) in line with the two"""
+    lat = rng.choice(TINY_LATS) if rng.random() < 0.7 else dyadic(rng, -90, 90, 20)
+    lon = rng.choice(TINY_LONS) if rng.random() < 0.6 else dyadic(rng, -180, 180, 20)
+    p = (lon, lat)
+    k = rng.random()
+    if k < 0.12:             # one-ulp neighbours
+        q = wrap_point(math.nextafter(lon, rng.choice([-math.inf, math.inf])) if rng.random() < 0.5 else lon,
+                       math.nextafter(lat, rng.choice([-math.inf, math.inf])) if rng.random() < 0.7 else lat)
+        v = (q[0] - p[0], q[1] - p[1])
+    else:
+        s_ = 10.0 ** -rng.uniform(3, 9)
+        th = rng.choice([0.0, math.pi / 2, math.pi, -math.pi / 2]) if rng.random() < 0.45 else rng.uniform(0, 2 * math.pi)
+        v = (s_ * math.cos(th) if abs(math.cos(th)) > 1e-12 else 0.0, s_ * math.sin(th) if abs(math.sin(th)) > 1e-12 else 0.0)
+        q = wrap_point(lon + v[0], lat + v[1])
+    k = rng.random()
+    if k < 0.55:             # collinear / nearly collinear
+        t = rng.choice([2.0, 0.5, 3.0, -1.0, 1.5, 10.0])
+        eps = 0.0 if rng.random() < 0.5 else rng.choice([1e-3, -1e-3, 1e-6])
+        r_ = wrap_point(lon + t * v[0] - eps * v[1], lat + t * v[1] + eps * v[0])
+    elif k < 0.8:            # a third point equally close, any direction
+        s2 = 10.0 ** -rng.uniform(3, 9)
+        th = rng.uniform(0, 2 * math.pi)
+        r_ = wrap_point(lon + s2 * math.cos(th), lat + s2 * math.sin(th))
+    else:
+        r_ = rng.choice([p, q])
+    pts = [p, q, r_]
+    rng.shuffle(pts)
+    return pts
+
+
 def gen_dist_case(rng, kind):
     metric = rng.choice(METRICS)
     if kind == "wild":
@@ -116,6 +161,9 @@ def gen_dist_case(rng, kind):
                 123456.789, -0.1, 180.00000000000003, -180.00000000000003, 90.00000000000001, 1e-9]
         pts = [(rng.choice(vals), rng.choice(vals)) if rng.random() < 0.6 else gen_sphere_point(rng) for _ in range(3)]
         return dict(kind="dist", sub="wild", metric=metric, pts=[[tok(v) for v in p] for p in pts], radius=tok(EARTH))
+    if metric == "great_circle_distance" and kind == "valid" and rng.random() < 0.3:
+        radius = rng.choice([EARTH, EARTH, EARTH, 1.0, 1737400.0])
+        return dict(kind="dist", sub="tiny", metric=metric, pts=[[tok(v) for v in p] for p in gen_tiny_triple(rng)], radius=tok(radius))
     if metric == "great_circle_distance":
         p = gen_sphere_point(rng)
         k = rng.random()
@@ -161,6 +209,21 @@ def same_sphere_point(p, q):
     if p[1] != q[1]:
         return False
     return p[0] == q[0] or abs(p[1]) == 90 or abs(p[0] - q[0]) == 360
+
+
+def gc_reference(p, q, R):
+    """the haversine distance evaluated from the EXACT coordinate differences (the subtraction of two close floats is
+    exact; converting each coordinate to radians first and subtracting then is not): accurate to a few ulps also for
+    points a millimetre apart.  Longitude differences are taken the short way round."""
+    dlat = Fraction(q[1]) - Fraction(p[1])
+    dlon = Fraction(q[0]) - Fraction(p[0])
+    if dlon > 180:
+        dlon -= 360
+    elif dlon < -180:
+        dlon += 360
+    dla, dlo = math.radians(float(dlat)), math.radians(float(dlon))
+    a = math.sin(dla / 2) ** 2 + math.cos(math.radians(p[1])) * math.cos(math.radians(q[1])) * math.sin(dlo / 2) ** 2
+    return 2 * R * math.asin(min(1.0, math.sqrt(a)))
 
 
 def oracle_dist(c):
@@ -227,6 +290,29 @@ def oracle_dist(c):
             underflow = all(d == 0 or d < Fraction(1, 10 ** 150) for d in diffs)   # squares vanish in floats
             if (p == q) != (res["pq"] == 0.0) and not (p != q and underflow):
                 return f"{name}: d(p,q)={res['pq']} for p={p} q={q} (zero iff coincident)"
+    if is_gc and R > 0 and math.isfinite(R):
+        # close points: the tolerance follows the separation (1e-8 of the circumference is 40 cm on the earth).  What float
+        # evaluation of the documented formula costs: the radian conversion of each coordinate is off by an ulp, i.e. the
+        # distance by some 1e-15 R; 1e-12 R (6 micrometres on the earth) is three orders above that.
+        near_pole = any(abs(pt[1]) > 89.9 for pt in pts)
+        tight = {}
+        for k in ("pq", "pr", "qr"):
+            if k in res:
+                ref = gc_reference(*pairs[k], R)
+                if ref < 1e-3 * R:
+                    tight[k] = ref
+                    t_abs, t_rel = 1e-12 * R, (1e-5 if near_pole else 1e-8)
+                    if abs(res[k] - ref) > t_abs + t_rel * ref:
+                        return (f"{name}: d={res[k]!r} for {pairs[k][0]} -> {pairs[k][1]}, {ref / R:.3e} R apart: the haversine formula "
+                                f"on the exact coordinate differences gives {ref!r} (off by {abs(res[k] - ref):.3e}, allowed "
+                                f"{t_abs + t_rel * ref:.3e})")
+                    if ref > 1e-11 * R and res[k] == 0.0 and not same_sphere_point(*pairs[k]):
+                        return f"{name}: distinct points {pairs[k][0]} {pairs[k][1]} ({ref!r} apart) at distance 0"
+        if "pq" in tight and "qp" in res and abs(res["pq"] - res["qp"]) > 1e-12 * R:
+            return f"{name}: not symmetric for close points: d(p,q)={res['pq']!r} d(q,p)={res['qp']!r} p={p} q={q}"
+        if len(tight) == 3 and res["pr"] > res["pq"] + res["qr"] + 1e-12 * R + 1e-9 * (res["pq"] + res["qr"]):
+            return (f"{name}: triangle inequality fails for close points: d(p,r)={res['pr']!r} > d(p,q)+d(q,r)="
+                    f"{res['pq'] + res['qr']!r} p={p} q={q} r={r_}")
     if all(k in res for k in ("pr", "pq", "qr")):
         if res["pr"] > res["pq"] + res["qr"] + tol:
             return (f"{name}: triangle inequality fails: d(p,r)={res['pr']} > d(p,q)+d(q,r)="
@@ -1034,6 +1120,9 @@ def run(r, scale=1, oracle_only=False):
     rng = r.rng
     r.rule = ("distances: point triples on a dyadic grid of the plane (scales 1..2^20) / the sphere incl. poles, "
               "antimeridian twins, antipodes and near-antipodes, coincident points, out-of-range coordinates by 1 ulp .. 1e300, "
+              "30% of the valid sphere triples at tiny separations (1e-3 .. 1e-9 degrees and one-ulp neighbours; base latitudes "
+              "0 .. 89.999999 and the poles, longitudes incl. both sides of the antimeridian; third point collinear, nearly "
+              "collinear or anywhere equally close) checked with a tolerance that follows the separation (1e-12 R + 1e-8 d), "
               "and a wild stream (nan, inf, subnormals); strings: literal x separator x unit spelling products, numeric "
               "notations, inf/nan spellings, random strings over digits . - + blanks and unit letters; kernels: cell sizes "
               "from {1..100, dyadics, 0.1, 0.3, 0.3048} with cx != cy, radii as ints / floats / exact multiples of a cell "
